@@ -188,13 +188,14 @@ CHECKS["C08"] = dict(
           "config is the latest object and its folded host set == latest endpoint set; exactly one running processor per service; no call "
           "after Stop. part converge-concurrent: short histories (service announced, then 1..6 endpoint updates with both lists right "
           "behind it) with a concurrent forwarder instead of pacing, so store and controller really race as in production; each history is "
-          "executed 40 times. Non-trivial: an endpoint update with both lists hit a running service, or a dependency was removed and re-added, "
-          "or the controller lagged >= 2 events. Distinct by canonical JSON of the history."),
+          "executed 40 times. part grpc (package disc, shared with C16): the real dynamic source (config.New with a DynamicSourceConfig: grpc.Dial, the three real discovery clients, their retry loops and the dependency hook of config/dynamic.go + config/discovery.go), the real store and the real controller against an in-process gRPC discovery server; rapid-generated histories (2..16 steps after 0..3 complete services) of dependency pushes (also bursts of 10..24 names, remove and re-add back to back), configuration and endpoint pushes, killing the dependency / config / endpoint stream, stopping and restarting the server on its port, pauses 1..1300 ms, and settle points. The server answers every subscription with the service's full state (endpoints: current list as added, removed ones - or, in half of the cases, every endpoint it ever had - as removed). Oracle at every settle point and at the end: within 45 s every scope has a live stream whose folded requests (a name in both lists of one request accepted either way) equal the dependency set, every server message is taken, and within 15 s more the store's view equals the server's truth and there is exactly one running processor for every dependency with a valid configuration and a non-empty endpoint list, with that configuration and host set; it stays so after a quiet period. Non-trivial: an endpoint update with both lists hit a running service, or a dependency was removed and re-added, "
+          "or the controller lagged >= 2 events; grpc: a stream or the server failed, or one push changed more than 16 dependencies. Distinct by canonical JSON of the history."),
     assumptions=["invalid configurations are generated only before a service's first valid one (what should happen to a running processor on an invalid update is not stated)",
                  "a service that has only ever received removal-only endpoint updates is accepted with or without a processor (ambiguous in the statement)"],
     parts=[
         dict(name="converge-concurrent", test="TestConvergeConcurrent", kind="rapid", crash_is_violation=True, checks={"quick": 40, "thorough": 2000}, shards=16, timeout={"quick": 900, "thorough": 3400}, records=["converge", "converge-concurrent"]),
         dict(name="converge", test="TestConverge", kind="rapid", crash_is_violation=True, checks={"quick": 2500, "thorough": 100000}, shards=16, timeout={"quick": 600, "thorough": 3000}),
+        dict(name="grpc", pkg="disc", test="TestGrpcE2E", kind="rapid", checks={"quick": 4, "thorough": 150}, shards=16, timeout={"quick": 900, "thorough": 3400}, shrinktime="60s", gomaxprocs=4, crash_is_violation=True),
     ],
 )
 
@@ -209,13 +210,14 @@ CHECKS["C16"] = dict(
           "fold of the current stream's requests (subscribe minus unsubscribe, per request in order; a name in both lists of one request is "
           "ambiguous and accepted either way) must equal the dependency set within the hang deadline (15 s; a goroutine parked in "
           "Subscribe's channel send while the run loop waits for the lock in two dumps 1 s apart ends the wait early) and stay equal after a "
-          "quiet period. Non-trivial: more than 16 changes were issued while no stream was up, or a Send failure hit the snapshot or the "
-          "first batch. Distinct by canonical JSON."),
+          "quiet period. part grpc (package disc, shared with C08): the real dynamic source (config.New with a DynamicSourceConfig: grpc.Dial, the three real discovery clients, their retry loops and the dependency hook of config/dynamic.go + config/discovery.go), the real store and the real controller against an in-process gRPC discovery server; rapid-generated histories (2..16 steps after 0..3 complete services) of dependency pushes (also bursts of 10..24 names, remove and re-add back to back), configuration and endpoint pushes, killing the dependency / config / endpoint stream, stopping and restarting the server on its port, pauses 1..1300 ms, and settle points. The server answers every subscription with the service's full state (endpoints: current list as added, removed ones - or, in half of the cases, every endpoint it ever had - as removed). Oracle at every settle point and at the end: within 45 s every scope has a live stream whose folded requests (a name in both lists of one request accepted either way) equal the dependency set, every server message is taken, and within 15 s more the store's view equals the server's truth and there is exactly one running processor for every dependency with a valid configuration and a non-empty endpoint list, with that configuration and host set; it stays so after a quiet period. Non-trivial: more than 16 changes were issued while no stream was up, or a Send failure hit the snapshot or the "
+          "first batch; grpc: a stream or the server failed, or one push changed more than 16 dependencies. Distinct by canonical JSON."),
     assumptions=["Subscribe/Unsubscribe are called from one goroutine (the dependency hook), as in production",
                  "the order of a subscribe and an unsubscribe of the same name inside one request is undefined by the wire format"],
     parts=[
         dict(name="discovery", test="TestDiscovery", kind="rapid", checks={"quick": 400, "thorough": 20000}, shards=16, timeout={"quick": 900, "thorough": 3000}, shrinktime="60s"),
         dict(name="discovery-realrun", test="TestDiscoveryRealRun", kind="rapid", checks={"quick": 4, "thorough": 60}, shards=8, timeout={"quick": 900, "thorough": 3000}, shrinktime="60s"),
+        dict(name="grpc", pkg="disc", test="TestGrpcE2E", kind="rapid", checks={"quick": 5, "thorough": 200}, shards=16, timeout={"quick": 900, "thorough": 3400}, shrinktime="60s", gomaxprocs=4, crash_is_violation=True),
     ],
 )
 
